@@ -447,35 +447,21 @@ class TriMesh(PointCloud):
             also an edge of another triangle (and so this triangle exists on
             the boundary of the TriMesh)
         """
-        # Compute the edge indices so that we can find duplicated edges
-        edge_indices = self.edge_indices()
-        # Compute the triangle indices and repeat them so that when we loop
-        # over the edges we get the correct triangle index per edge
-        # (e.g. [0, 0, 0, 1, 1, 1, ...])
-        tri_indices = np.arange(self.trilist.shape[0]).repeat(3)
-
-        # Loop over the edges to find the "lonely" triangles that have an edge
-        # that isn't shared with another triangle. Due to the definition of a
-        # triangle and the careful ordering chosen above, each edge will be
-        # seen either exactly once or exactly twice.
-        # Note that some triangles may appear more than once as it's possible
-        # for a triangle to only share one edge with the rest of the mesh (so
-        # it would have two "lonely" edges
-        lonely_triangles = {}
-        for edge, t_i in zip(edge_indices, tri_indices):
-            # Sorted the edge indices since we may see an edge (0, 1) and then
-            # see it again as (1, 0) when in fact that is the same edge
-            sorted_edge = tuple(sorted(edge))
-            if sorted_edge not in lonely_triangles:
-                lonely_triangles[sorted_edge] = t_i
-            else:
-                # If we've already seen the edge the we will never see it again
-                # so we can just remove it from the candidate set
-                del lonely_triangles[sorted_edge]
-
-        mask = np.zeros(self.n_tris, dtype=bool)
-        mask[np.array(list(lonely_triangles.values()))] = True
-        return mask
+        # Each physical edge is identified by its sorted pair of point indices,
+        # encoded as a single integer key (lo * n_points + hi)
+        edge_pairs = np.sort(self.edge_indices().astype(np.int64), axis=1)
+        edge_keys = edge_pairs[:, 0] * self.n_points + edge_pairs[:, 1]
+        # Count how many triangles own each edge. An edge owned by exactly one
+        # triangle is not shared with any other triangle. Counting (rather
+        # than toggling) is also correct for closed meshes, which have no
+        # such edge, and for edges shared by more than two triangles.
+        _, inverse, counts = np.unique(
+            edge_keys, return_inverse=True, return_counts=True
+        )
+        lonely_edges = counts[inverse.ravel()] == 1
+        # edge_indices() returns the three edges of each triangle in order
+        # (e.g. [AB_1, BC_1, CA_1, AB_2, ...]) so we can regroup per triangle
+        return lonely_edges.reshape(-1, 3).any(axis=1)
 
     def edge_vectors(self):
         r"""A vector of edges of each triangle face.
